@@ -21,7 +21,7 @@ func init() {
 func runTraceProp(c *Ctx) {
 	cs := loadContracts(c)
 	opt := vc.Options{Safety: false, InlineDepth: 2, InlineSize: 100}
-	c.Replayer = replayExits
+	c.Replayer = withSpecCases(replayExits)
 	runContracts(c, cs, opt, defaultSolve())
 	if c.Prop == "C07" {
 		sweepTrace(c, cs, opt, "forward-exits")
